@@ -248,3 +248,75 @@ func DBModelS4() model.DatabaseModel {
 	}
 	return dbm
 }
+
+// RootC is Root with hand-written clone / equality methods (the CloneableModel / ComparableModel fast path).
+type RootC struct {
+	UUID   string            `ovsdb:"_uuid"`
+	Name   string            `ovsdb:"name"`
+	Num    int               `ovsdb:"num"`
+	Ratio  float64           `ovsdb:"ratio"`
+	Flag   bool              `ovsdb:"flag"`
+	Tag    *string           `ovsdb:"tag"`
+	ONum   *int              `ovsdb:"onum"`
+	Labels []string          `ovsdb:"labels"`
+	Nums   []int             `ovsdb:"nums"`
+	Conf   map[string]string `ovsdb:"conf"`
+	Cnt    map[string]int    `ovsdb:"cnt"`
+	Mode   string            `ovsdb:"mode"`
+	Imm    string            `ovsdb:"imm"`
+}
+
+func (a *RootC) DeepCopyInto(b *RootC) {
+	*b = *a
+	if a.Tag != nil {
+		s := *a.Tag
+		b.Tag = &s
+	}
+	if a.ONum != nil {
+		s := *a.ONum
+		b.ONum = &s
+	}
+	if a.Labels != nil {
+		b.Labels = make([]string, len(a.Labels))
+		copy(b.Labels, a.Labels)
+	}
+	if a.Nums != nil {
+		b.Nums = make([]int, len(a.Nums))
+		copy(b.Nums, a.Nums)
+	}
+	if a.Conf != nil {
+		b.Conf = make(map[string]string, len(a.Conf))
+		for k, v := range a.Conf {
+			b.Conf[k] = v
+		}
+	}
+	if a.Cnt != nil {
+		b.Cnt = make(map[string]int, len(a.Cnt))
+		for k, v := range a.Cnt {
+			b.Cnt[k] = v
+		}
+	}
+}
+
+func (a *RootC) CloneModel() model.Model {
+	b := &RootC{}
+	a.DeepCopyInto(b)
+	return b
+}
+
+func (a *RootC) CloneModelInto(b model.Model) {
+	a.DeepCopyInto(b.(*RootC))
+}
+
+// DBModelS1C builds the database model for SchemaS1 with the hand-cloned model type.
+func DBModelS1C() model.DatabaseModel {
+	cm, err := model.NewClientDBModel("V", map[string]model.Model{"Root": &RootC{}})
+	if err != nil {
+		panic("fix: " + err.Error())
+	}
+	dbm, errs := model.NewDatabaseModel(MustSchema(SchemaS1), cm)
+	if len(errs) > 0 {
+		panic("fix: " + errs[0].Error())
+	}
+	return dbm
+}
